@@ -132,6 +132,16 @@ impl VM {
         O: std::io::Write + Clone,
         E: std::io::Write + Clone,
     {
+        // The file being evaluated is on the import stack while it runs so
+        // that an import leading back to it is recognised as a cycle.
+        if let Some(p) = self.ops.path.as_ref() {
+            let p: Rc<str> = crate::path::normalize(p.clone())
+                .to_string_lossy()
+                .into();
+            if !self.import_stack.iter().any(|q| q == &p) {
+                self.import_stack.push(p);
+            }
+        }
         while let Some(op) = self.ops.next() {
             #[cfg(ucg_verif)]
             crate::verif::tick("vm::run");
@@ -196,9 +206,6 @@ impl VM {
                 Op::CheckConstraint => self.op_check_constraint(pos)?,
                 Op::BuildConstraint(arm_types) => self.op_build_constraint(arm_types, pos)?,
             };
-        }
-        if let Some(p) = self.ops.path.as_ref() {
-            self.import_stack.push(p.to_string_lossy().into());
         }
         Ok(())
     }
